@@ -25,10 +25,10 @@ func init() {
 		Rule: "case = (generated valid sub-distributor configuration, fault schedule). The real distributor keeper is built around a fault-injecting bank wrapper (every SendCoinsFromModuleToModule / FromAccountToModule / FromModuleToAccount / BurnCoins call can be made to fail without touching state). " +
 			"Per configuration 48 schedules: each of the first 30 bank calls failing alone (exhaustive), 8 pairs inside a 4-call window, 6 random subsets (p=0.1/0.5/0.9), 4 'kind X fails in every call for k blocks'; 6 faulty blocks then a 5-block fault-free suffix. " +
 			"After every block: C03 identities on the faulty run and holdings vs the exact model fed the same failures; at the end every address' balance+remains and the burned total are compared with a fault-free twin (<=1 base unit). Non-trivial: >=1 injected fault hit a call that would have moved coins. Distinct by (configuration, schedule).",
-		Assumptions: []string{"injected faults return an error before any state change (the natural partial failure of x/bank on locked coins is covered by the locked-source account of the generator and was defect D18)"},
-		Cases:       func(t string) int { return tierN(t, 50, 2500) * c14Schedules },
+		Assumptions:   []string{"injected faults return an error before any state change (the natural partial failure of x/bank on locked coins is covered by the locked-source account of the generator and was defect D18)"},
+		Cases:         func(t string) int { return tierN(t, 50, 2500) * c14Schedules },
 		MinNontrivial: func(t string) int { return tierN(t, 400, 20000) },
-		Run:         runC14,
+		Run:           runC14,
 	})
 }
 
